@@ -56,7 +56,13 @@ def judge(case) -> Verdict:
         if bad == "nc":
             if cls_name == "AddressAg" and platform == "ios":
                 raise Invalid()
-            extra = cls("10.0.0.0 0.0.1.3", platform=platform)
+            shapes = ["10.0.0.0 0.0.1.3", "10.20.0.0 255.255.0.0", "10.0.0.0 255.0.0.0", "10.20.0.0 255.254.0.0",
+                      "0.0.0.5 128.0.0.0", "10.0.0.0 0.0.255.254", "10.20.30.0 255.255.0.0", "0.0.0.0 255.255.0.0",
+                      "10.0.0.1 0.0.0.254", "10.0.0.0 0.255.0.255"]
+            extra = cls(shapes[case.get("shape", 0) % len(shapes)], platform=platform)
+            if extra.ipnet is not None:
+                v.fail("refusal:nc:non-contiguous-wildcard-has-a-single-network", {"line": extra.line, "ipnet": str(extra.ipnet)})
+                return v
         elif bad == "foreign":
             extra = (AddressAg if cls_name == "Address" else Address)("host 10.0.0.1", platform=platform)
         else:
@@ -231,9 +237,10 @@ def case_st(draw, tier):
             moves.append([draw(st.integers(0, 11)), [(pool | draw(st.integers(0, 1023))) & ~w2 & R.ALL1, w2],
                           draw(st.sampled_from(["prefix", "line"]))])
         case["readdress"] = moves
-    elif draw(st.integers(0, 14)) == 0:
+    elif draw(st.integers(0, 9)) == 0:
         case["bad"] = draw(st.sampled_from(["nc", "foreign", "str"]))
         case["pos"] = draw(st.integers(0, 12))
+        case["shape"] = draw(st.integers(0, 9))
         if case["bad"] == "nc" and cls == "AddressAg" and platform == "ios":
             case["bad"] = "foreign"
     return case
